@@ -161,7 +161,7 @@ def compare_shard(suite, shard, outs, stats, divs, maxdiv=200, collect=None, sat
         if owned: stats.owned_hist += 1
         if len(stats.samples) < 3: stats.samples.append({'cfg': cfg, 'ops': ops[:12]})
         broken = False
-        nspec = 0
+        nspec = 0; nstrong = 0
         was_ok = True
         rules = True
         ndiv0 = len(divs)
@@ -201,10 +201,16 @@ def compare_shard(suite, shard, outs, stats, divs, maxdiv=200, collect=None, sat
             if m != i and not broken:
                 broken = True
                 if len(divs) < maxdiv: divs.append(Div(suite, header, cfg, ops, idx, 'tie', m, i)); divs[-1].rules_ok = rules
-            if nospec and m != i and nspec < 6 and not i.startswith('<missing'):
-                # async suite: the model line is one synchronous attempt (proved); every departure is a failing input
-                nspec += 1
-                if len(divs) < maxdiv * 4: divs.append(Div(suite, header, cfg, ops, idx, 'spec', m, i)); divs[-1].rules_ok = rules
+            if nospec and m != i and not i.startswith('<missing'):
+                # async suite: the model line is one synchronous attempt (proved); every departure is a failing input.
+                # A departure in more than the atomic trace (result, indices, ledger, waker) is kept even when trace-only ones abound
+                strong = re.sub(r' \| at=.*$', '', m) != re.sub(r' \| at=.*$', '', i)
+                if strong and nstrong < 6:
+                    nstrong += 1
+                    if len(divs) < maxdiv * 4 + 400: divs.append(Div(suite, header, cfg, ops, idx, 'spec', m, i)); divs[-1].rules_ok = rules
+                elif not strong and nspec < 2:
+                    nspec += 1
+                    if len(divs) < maxdiv * 4: divs.append(Div(suite, header, cfg, ops, idx, 'spec', m, i)); divs[-1].rules_ok = rules
             # the Spec stays the reference for the whole history (as long as the history respects the contract):
             # keep looking for steps where the implementation departs from it, also after the first divergence
             if s.startswith('+ ') and s[2:] != CA_RE.sub('', i) and nspec < 6 and not i.startswith('<missing'):
